@@ -181,6 +181,11 @@ func (c chainSpec) build() (*memory.Database, error) {
 			err = txlayout.TransactionLayoutPerTx.WriteTransactionsAndReceipts(d, b, txs, rcs)
 		case 'n':
 			err = txlayout.TransactionLayoutCombined.WriteTransactionsAndReceipts(d, b, txs, rcs)
+		case 'b': // both layouts present (only arises on error paths of the migration)
+			err = txlayout.TransactionLayoutPerTx.WriteTransactionsAndReceipts(d, b, txs, rcs)
+			if err == nil {
+				err = txlayout.TransactionLayoutCombined.WriteTransactionsAndReceipts(d, b, txs, rcs)
+			}
 		case '-':
 			if len(txs) != 0 {
 				return nil, fmt.Errorf("spec: block %d has transactions but layout '-'", b)
